@@ -1,7 +1,8 @@
 package main
 
 // C12 — the token endpoint over the full product of the property's quantifier (the same
-// enumeration as Model/OIDCEnum.v), the authorization step, and userinfo; decoded ID tokens
+// enumeration as Model/OIDCEnum.v), the authorization step (incl. the audience parameter x the
+// client's allow_client_chose_audiences flag, each followed by the redemption of the code), and userinfo; decoded ID tokens
 // verified under the served JWKS (key selected by kid); the same flows once per signer
 // configuration (RSA-3072, P-256, P-384, P-521, each with an Ed25519 SSH CA alongside).
 
@@ -1058,7 +1059,7 @@ func (x *c12Run) runAudienceFlows(s *c12Site, authz *[]c12Authz) []c12Flow {
 
 func TestVerif_C12(t *testing.T) {
 	verifWriteConsts(t)
-	res := newVerifResult("token endpoint over the full product: caller {client with secret, secret-less client, unknown} x secret {right, wrong, none} x verifier {right, wrong, none} x challenge bound into the code {S256, plain, empty method, unknown method, none} x redirect_uri {same, other, absent, empty, same with trailing slash, same in upper case, sent twice same first, sent twice other first} x code {fresh, expired, tampered, issued to the other client, a session cookie, an access token} x credentials in {header, form, header url-escaped} = 19440 requests (codes from the real authorize endpoint where it admits the challenge method, otherwise signed in-package); the sub-product of 288 requests plus 9 authorization requests on each of four more daemon states (signer RSA-3072, P-256, P-384, P-521, each with an Ed25519 SSH CA; key files through the configuration surface), KeymasterPublicKeys / JWKS / discovery of each compared with the model, two key-file sets the daemon must refuse; every released ID token decoded and verified under the published key its kid names, every released access token taken to userinfo; ~70 authorization requests; ~60 userinfo probes (other kinds, audiences, header/form/query); non-trivial = the request passed client lookup; distinct by combination")
+	res := newVerifResult("token endpoint over the full product: caller {client with secret, secret-less client, unknown} x secret {right, wrong, none} x verifier {right, wrong, none} x challenge bound into the code {S256, plain, empty method, unknown method, none} x redirect_uri {same, other, absent, empty, same with trailing slash, same in upper case, sent twice same first, sent twice other first} x code {fresh, expired, tampered, issued to the other client, a session cookie, an access token} x credentials in {header, form, header url-escaped} = 19440 requests (codes from the real authorize endpoint where it admits the challenge method, otherwise signed in-package); the sub-product of 288 requests plus 9 authorization requests on each of four more daemon states (signer RSA-3072, P-256, P-384, P-521, each with an Ed25519 SSH CA; key files through the configuration surface), KeymasterPublicKeys / JWKS / discovery of each compared with the model, two key-file sets the daemon must refuse; every released ID token decoded and verified under the published key its kid names, every released access token taken to userinfo; ~70 authorization requests; audience flows: 4 clients {allow_client_chose_audiences or not} x {secret, PKCE} x 12 shapes of the authorization request's audience parameter {absent, under the client's domains, foreign, near misses, several values}, every issued code redeemed with header / form / wrong credentials, ID token audience compared with [client] and access token audience with [chosen, userinfo] for exact equality; ~60 userinfo probes (other kinds, audiences, header/form/query); non-trivial = the request passed client lookup; distinct by combination")
 	env := verifSetup(t, c12Config)
 	st := env.state
 	sid := env.signerKeyID()
